@@ -21,6 +21,7 @@ package framework_helper
 //@ ensures [compares-order] result == (Ord(toany(i)) < Ord(toany(j)))
 
 //@ func SortOrderedComponents
+//@ terminates
 //@ property C12
 //@ replay sorter
 //@ probe cls[k<6] = Cls(toany(components[k]))
@@ -65,12 +66,14 @@ package framework_helper
 //@ spec func NameOf(c any) string = ite(AliasOf(c) != "", AliasOf(c), IdOf(c))
 
 //@ func GetComponentNameWithAlias
+//@ terminates
 //@ property C07
 //@ requires [plain-component] !typeIs(t, reflect.Value) && !implements(t, reflect.Type)
 //@ assigns nothing
 //@ ensures [name-and-alias] name == IdOf(t) && alias == AliasOf(t)
 
 //@ func GetComponentName
+//@ terminates
 //@ property C07
 //@ requires [plain-component] !typeIs(t, reflect.Value) && !implements(t, reflect.Type)
 //@ assigns nothing
